@@ -9,7 +9,7 @@ PIPELINED = VARIANTS[3:]
 MULTI = VARIANTS[5:]
 FUEL = 200000
 FEATURES = ['cold-store-then-load', 'store-then-load', 'store-store-line', 'load-then-store', 'stores', 'loads', 'gt16-lines']
-PROFILES = ['alu', 'ssa', 'ssald', 'ssamem', 'hazard', 'branch', 'loops', 'shadow', 'ldslow', 'ldonly', 'disj', 'touched', 'mem', 'evict', 'evictlf', 'stld', 'tail', 'mixed', 'err']
+PROFILES = ['alu', 'ssa', 'ssald', 'ssamem', 'ssabr', 'ssabr1', 'hazard', 'branch', 'loops', 'shadow', 'ldslow', 'ldonly', 'disj', 'touched', 'mem', 'evict', 'evictlf', 'stld', 'tail', 'mixed', 'err']
 
 
 def pars_of(variant):
